@@ -9,6 +9,7 @@ from vf.model_scipp import Var, Buf, BOOL, I64, DType, CoordError
 from vf.units import NAMED, symbolic_unit
 
 MOD = 'chopper.filtering'
+DATETIME = DType.datetime64
 R = z3.Real
 IDX = z3.Int('i')              # the generic element index of indexed arrays
 CATCH = (Exception,)
@@ -51,7 +52,8 @@ class IVar(core.MockBase):
         return a
 
     def __sub__(self, o):
-        return self._bin(o, lambda a, b: a - b, self._same)
+        # the difference of two time points is a number of ticks
+        return self._bin(o, lambda a, b: a - b, self._same, dtype=I64 if self.dtype == DATETIME else None)
 
     def __truediv__(self, o):
         return self._bin(o, lambda a, b: a / b, lambda a, b: a / b, dtype=F64)
@@ -101,17 +103,18 @@ class Coords(dict):
 class DA(core.MockBase):
     """1-d data array of symbolic length n with indexed data and coordinate"""
 
-    def __init__(self, ndim=1):
+    def __init__(self, ndim=1, coord_dtype=F64, coord_unit='s'):
         n = z3.Int('n')
         self.n = n
+        self.coord_dtype, self.coord_unit = coord_dtype, coord_unit
         self.data = IVar(z3.Function('y', z3.IntSort(), z3.RealSort())(IDX), NAMED['Hz'], F64, 'time', n)
-        self.coords = Coords(time=IVar(z3.Function('x', z3.IntSort(), z3.RealSort())(IDX), NAMED['s'], F64, 'time', n))
+        self.coords = Coords(time=IVar(z3.Function('x', z3.IntSort(), z3.RealSort())(IDX), NAMED[coord_unit], coord_dtype, 'time', n))
         self.ndim = ndim
         self.dim = 'time'
         self.log = []
 
     def copy(self, deep=True):
-        c = DA(self.ndim)
+        c = DA(self.ndim, self.coord_dtype, self.coord_unit)
         c.log = self.log
         c.coords = Coords(self.coords)
         c.is_copy = (self, deep)
@@ -240,6 +243,13 @@ def group_ids(chk, mod):
     """id_0 = 0 and id_{i+1} - id_i = [ |slope_i| > atol ] with slope_i = (y_{i+1}-y_i)/(x_{i+1}-x_i)"""
     chk.function(MOD, 'find_plateaus')
     chk.function(MOD, '_derive')
+    # the coordinate may be floating point, integer or datetime, in any resolution: the slope is per second whatever the tick
+    for cdt, cunit, ticks in ((F64, 's', 1), (I64, 'ms', 1000), (DATETIME, 's', 1), (DATETIME, 'ms', 1000), (DATETIME, 'ns', 10 ** 9)):
+        _group_ids(chk, mod, cdt, cunit, ticks)
+
+
+def _group_ids(chk, mod, cdt, cunit, ticks):
+    tag = '' if cdt == F64 else f'{cdt} coordinate in {cunit},'
     pre = f'{MOD}:find_plateaus'
     n = z3.Int('n')
     atol_unit = NAMED['Hz'] / NAMED['s']
@@ -249,7 +259,7 @@ def group_ids(chk, mod):
     mod._check_total_tolerance = lambda plateaus, atol: []
 
     def call():
-        da = DA()
+        da = DA(coord_dtype=cdt, coord_unit=cunit)
         holder['da'] = da
         return mod.find_plateaus(da, atol=Var(Buf(R('atol'), atol_unit, F64)), min_n_points=3)
     try:
@@ -261,22 +271,22 @@ def group_ids(chk, mod):
     k = z3.Int('k')
     for i, p in enumerate(paths):
         ok = p.kind == 'return'
-        chk.decided(f'{pre}/no-raise-on-sorted-1d-input[path{i}]', ok, detail=f'{type(p.value).__name__}: {p.value}' if not ok else '')
+        chk.decided(f'{pre}/no-raise-on-sorted-1d-input[{tag}path{i}]', ok, detail=f'{type(p.value).__name__}: {p.value}' if not ok else '')
         if not ok:
             continue
         da = holder['da']
         grp = [e for e in da.log if e[0] == 'group']
-        chk.decided(f'{pre}/groups-by-the-id-coordinate[path{i}]', len(grp) == 1 and isinstance(grp[0][2], IVar))
+        chk.decided(f'{pre}/groups-by-the-id-coordinate[{tag}path{i}]', len(grp) == 1 and isinstance(grp[0][2], IVar))
         if len(grp) != 1 or not isinstance(grp[0][2], IVar):
             continue
         gid = grp[0][2]
         hy = list(base) + [R('atol') >= 0] + p.axioms + p.pc
-        slope = (y(k + 1) - y(k)) / (x(k + 1) - x(k))
+        slope = (y(k + 1) - y(k)) / (x(k + 1) - x(k)) * ticks      # per second: x counts ticks
         exceed = z3.If(z3.If(slope >= 0, slope, -slope) > R('atol'), 1, 0)
-        chk.prove(f'{pre}/id[0]==0[path{i}]', hy, gid.at(0) == 0)
-        chk.prove(f'{pre}/id[k+1]-id[k]==[|slope_k|>atol][path{i}]', hy + [k >= 0, k < n - 1], gid.at(k + 1) - gid.at(k) == exceed, timeout=60)
-        chk.prove(f'{pre}/one-id-per-point[path{i}]', hy, gid.length == n)
-        chk.decided(f'{pre}/id-is-int64[path{i}]', gid.dtype == I64)
+        chk.prove(f'{pre}/id[0]==0[{tag}path{i}]', hy, gid.at(0) == 0)
+        chk.prove(f'{pre}/id[k+1]-id[k]==[|slope_k|>atol][{tag}path{i}]', hy + [k >= 0, k < n - 1], gid.at(k + 1) - gid.at(k) == exceed, timeout=60)
+        chk.prove(f'{pre}/one-id-per-point[{tag}path{i}]', hy, gid.length == n)
+        chk.decided(f'{pre}/id-is-int64[{tag}path{i}]', gid.dtype == I64)
 
 
 def structure(chk, mod):
@@ -429,19 +439,26 @@ def _reference_failures(n, seed, limit=3):
         if kind == 0:
             x = np.cumsum(rng.uniform(0.1, 2.0, npts)) + float(rng.choice([0.0, -1.0, -0.5, 1e6, -1e6]) * rng.uniform(0, 2 * npts))
             xv = sc.array(dims=['time'], values=x, unit='s')
-        elif kind == 1:
-            x = (np.cumsum(rng.integers(1, 5, npts)) + int(rng.choice([0, -1, 1000]) * rng.integers(0, 3 * npts))).astype('int64')
-            xv = sc.array(dims=['time'], values=x, unit='s')
-        else:
-            x = np.cumsum(rng.integers(1, 5, npts)).astype('int64')
-            xv = sc.epoch(unit='s') + sc.array(dims=['time'], values=x, unit='s')
+        # integer and datetime coordinates come in any resolution (s, ms, us, ns) with steps that are not whole seconds;
+        # `scale` is the number of ticks per second
+        cunit, scale = 's', 1
+        if kind in (1, 2):
+            cunit, scale = [('s', 1), ('ms', 10 ** 3), ('us', 10 ** 6), ('ns', 10 ** 9)][(i // 3) % 4]
+        if kind == 1:
+            steps = rng.integers(1, 5, npts) if scale == 1 else rng.integers(scale // 10, 2 * scale, npts)
+            x = (np.cumsum(steps) + int(rng.choice([0, -1, 1000]) * rng.integers(0, 3 * npts)) * scale).astype('int64')
+            xv = sc.array(dims=['time'], values=x, unit=cunit)
+        elif kind == 2:
+            steps = rng.integers(1, 5, npts) if scale == 1 else rng.integers(scale // 10, 2 * scale, npts)
+            x = np.cumsum(steps).astype('int64')
+            xv = sc.epoch(unit=cunit) + sc.array(dims=['time'], values=x, unit=cunit)
         atol = 0.5
         # piecewise-constant levels with small noise; some slopes exactly at the tolerance
         y = np.zeros(npts)
         level = 0.0
         for j in range(1, npts):
             r = rng.random()
-            dx = float(x[j] - x[j - 1])
+            dx = float(x[j] - x[j - 1]) / scale
             if r < 0.15:
                 level += rng.choice([-1, 1]) * rng.uniform(2, 10) * dx
             elif r < 0.25:
@@ -451,7 +468,7 @@ def _reference_failures(n, seed, limit=3):
         da = sc.DataArray(sc.array(dims=['time'], values=y, unit='Hz'), coords={'time': xv, 'other': sc.array(dims=['time'], values=np.arange(npts))})
         mnp = int(rng.integers(1, 6))
         before = da.copy(deep=True)
-        desc = {'id': f'case{i}', 'index': i, 'seed': seed, 'n_points': npts, 'min_n_points': mnp, 'coord_kind': ['float', 'int', 'datetime'][kind]}
+        desc = {'id': f'case{i}', 'index': i, 'seed': seed, 'n_points': npts, 'min_n_points': mnp, 'coord_kind': ['float', 'int', 'datetime'][kind], 'coord_unit': cunit}
         try:
             out = flt.find_plateaus(da, atol=sc.scalar(atol, unit='Hz/s'), min_n_points=mnp)
         except RuntimeError:
@@ -460,8 +477,10 @@ def _reference_failures(n, seed, limit=3):
             fails.append({**desc, 'problem': f'raised {type(e).__name__}: {e}'})
             continue
         # reference: maximal runs
-        xs = x.astype(float)
+        xs = x.astype(float) / scale
         slopes = np.abs(np.diff(y) / np.diff(xs))
+        if scale != 1 and np.any(np.abs(slopes / atol - 1) < 1e-9):
+            continue        # a slope at the tolerance to rounding: in a sub-second resolution neither answer is wrong
         runs, start = [], 0
         for j in range(npts - 1):
             if slopes[j] > atol:
